@@ -171,6 +171,17 @@ func init() {
 			},
 		},
 		propCheck{
+			ID: "C23", Level: "exploration",
+			Rule: "one evaluation = one simulated history on table t with a generated trigger set: 1-6 initial triggers plus CREATE / DROP TRIGGER during the history, BEFORE / AFTER x INSERT / UPDATE / DELETE, several per time and event placed with FOLLOWS / PRECEDES, bodies of 1-3 steps drawn from: write an audit row (trigger name, row id, OLD.a, NEW.a, NEW.b) into lg, SET NEW.a = NEW.a + k, SET NEW.b from OLD / NEW, IF .. THEN SIGNAL; 5-24 (thorough: -40) multi-row INSERT / UPDATE / DELETE statements by two sessions, with planted duplicate keys, SIGNAL conditions and storage errors at a drawn edit call (of t or lg) in the runs that do not steer away from the known finding. After every statement: t equals the model (NEW as left by the BEFORE triggers is what is stored), affected rows = changed rows, and the audit rows written since the previous statement are, per affected row, exactly the model's sequence: every trigger once, in the order given by creation and FOLLOWS / PRECEDES, seeing the OLD / NEW values of its position in the chain; a failed statement leaves neither rows in t nor audit rows; distinct = distinct hash of the statement-kind/outcome sequence",
+			Real: []string{"analyzer applyTriggers / plan.OrderTriggers, trigger executor and rollback iterators", "CREATE / DROP TRIGGER, SIGNAL, BEGIN..END blocks, SET NEW.x", "engine + memory backend (t and the audit table)"},
+			Stub: []string{"session scheduling at statement granularity (two sessions alternate)", "storage error source (verifhook.Fault at memory table editor calls)"},
+			Assumptions: []string{"the order in which a multi-row UPDATE / DELETE visits rows is not prescribed: audit rows are compared per affected row, not across rows", "UPDATE statements always change a column, so whether triggers fire for unchanged rows is not exercised", "the engine refuses to DROP a trigger that another one names in FOLLOWS / PRECEDES (MySQL would drop it); accepted, not part of the property", "REPLACE / ON DUPLICATE KEY UPDATE and triggers reading other tables are not generated"},
+			Subs: []subCheck{
+				{ID: "C23", World: "sqlsim", Quick: 4000, Thorough: 300000, QuickCap: 90, ThoroughCap: 1500, GC: "100",
+					Probes: []string{"multi-trigger-row-checked", "trigger-placed-with-follows-precedes", "drop-of-referenced-trigger-refused"}},
+			},
+		},
+		propCheck{
 			ID: "C39", Level: "exploration",
 			Rule: "one evaluation = one simulated history of 4-30 administrative statements by root (CREATE USER / ROLE, GRANT and REVOKE of 10 privilege kinds or ALL at the global, database, table and routine level, to users and roles, GRANT / REVOKE role, DROP USER / ROLE) over 3 users and 2 roles; after every statement every user's allow/deny outcome over 8 effect-free probe statements (SELECT/INSERT/UPDATE/DELETE on three tables, CALL) is taken from a long-lived session (privilege cache) and from a fresh session and compared with a privilege model (own grants united with the grants of every granted role, global or database or object level); in 2/3 of the steps one user also runs one statement with an effect (INSERT, UPDATE, DELETE, INSERT..SELECT, REPLACE, CREATE/DROP/ALTER TABLE, CREATE INDEX, CREATE USER): allowed iff the model holds every required privilege, allowed => the state changed, denied => the state read by root is unchanged; distinct = distinct hash of the statement-kind/outcome sequence",
 			Real: []string{"planbuilder authorization (HandleAuth), plan.Grant / Revoke / CreateUser / DropUser / roles execution", "mysql_db.MySQLDb, PrivilegeSet, role edges, per-session privilege cache (update counter)", "engine + memory backend"},
